@@ -375,7 +375,18 @@ def r3_split_walk(ctx):
                 revs += 1
             cur = cur.args[0]
             continue
-        if isinstance(cur, ast.BinOp) and isinstance(cur.op, ast.Add) and isinstance(cur.left, ast.List) and len(cur.left.elts) == 1 and is_name(cur.right, parts):
+        if isinstance(cur, ast.BinOp) and isinstance(cur.op, ast.Add) and isinstance(cur.left, ast.List) and len(cur.left.elts) == 1 and isinstance(cur.right, ast.Name):
+            # (a plain copy of the recorded list is the recorded list)
+            rn_, hops_ = cur.right, 0
+            while not is_name(rn_, parts) and hops_ < 3:
+                hops_ += 1
+                ds_ = rd.at(node, rn_.id)
+                if len(ds_) == 1 and isinstance(ds_[0].value, ast.Name):
+                    rn_ = ds_[0].value
+                else:
+                    break
+            if not is_name(rn_, parts):
+                break
             # [file name] + <names recorded by the walk>: the same list, its first element given here
             head_elt = (node, cur.left.elts[0])
             cur = cur.right
